@@ -294,14 +294,16 @@ Print Assumptions C20_claims_index_enumerates_once.
 
 (* smart-account rule ids are never reused: the ids returned by the successful add_context_rule calls of any run are strictly increasing *)
 Theorem C20_rule_ids_never_reused :
-  forall (c : sa_cfg) (cs : list sa_call), incrb (sa_added c sa_init cs) = true.
+  forall (c : sa_cfg) (now0 : N) (cs : list (tcall sa_call)),
+  incrb (sa_added c (sa_init, now0) cs) = true.
 Proof. exact sa_rule_ids_never_reused. Qed.
 Print Assumptions C20_rule_ids_never_reused.
 
 (* smart-account context rules are ONE map id -> rule: getters, count, per-type lists (each rule of the type exactly once), no two live rules with the same fingerprint (context type, signer set, policy set), duplicate-free signer / policy lists within MAX_SIGNERS / MAX_POLICIES, never both empty *)
 Theorem C20_sa_refines :
-  forall (c : sa_cfg) (cs : list sa_call),
-  let s := run (sa_step c) sa_init cs in
+  forall (c : sa_cfg) (sl : sa_state * N),
+  sa_reachable c sl ->
+  let s := fst sl in
   exists rules : list rule,
     NoDup (map r_id rules) /\
     (forall id : N, sa_get_rule s id = of_option (find_rule id rules)) /\
@@ -323,25 +325,70 @@ Print Assumptions C20_sa_refines.
 
 (* duplicate fingerprints are refused: a rule with the context type, signer SET and policy SET of a live rule (lists in any order) cannot be added *)
 Theorem C20_sa_duplicate_fingerprint_refused :
-  forall (c : sa_cfg) (cs : list sa_call) (id : N) (r : rule) (cx : ctxt) (name : N) 
-    (until : option N) (sg : list signer) (po : list (N * bool)),
-  let s := run (sa_step c) sa_init cs in
+  forall (c : sa_cfg) (sl : sa_state * N) (now id : N) (r : rule) (cx : ctxt) 
+    (name : N) (until : option N) (sg : list signer) (po : list (N * bool)),
+  sa_reachable c sl ->
+  let s := fst sl in
   sa_get_rule s id = Ok r ->
   r_ctx r = cx ->
   (forall x : signer, In x sg <-> In x (r_signers r)) ->
   (forall p : N, In p (map fst po) <-> In p (r_policies r)) ->
-  sa_step c s (SaAddRule cx name until sg po) = Fail.
+  sa_step (sa_with_now c now) s (SaAddRule cx name until sg po) = Fail.
 Proof. exact sa_duplicate_fingerprint_refused. Qed.
 Print Assumptions C20_sa_duplicate_fingerprint_refused.
 
 (* a successful add_context_rule needs room below MAX_CONTEXT_RULES *)
 Theorem C20_sa_rule_limit :
-  forall (c : sa_cfg) (cs : list sa_call) (cx : ctxt) (name : N) (until : option N) 
+  forall (c : sa_cfg) (s : sa_state) (now : N) (cx : ctxt) (name : N) (until : option N)
     (sg : list signer) (po : list (N * bool)),
-  let s := run (sa_step c) sa_init cs in
-  is_ok (sa_step c s (SaAddRule cx name until sg po)) = true -> (sa_count0 s < sa_max_rules c)%nat.
+  is_ok (sa_step (sa_with_now c now) s (SaAddRule cx name until sg po)) = true ->
+  (sa_count0 s < sa_max_rules c)%nat.
 Proof. exact sa_rule_limit. Qed.
 Print Assumptions C20_sa_rule_limit.
+
+(* add_signer: accepted IFF the rule exists, the signer is new (duplicates refused), the signer list
+   is below MAX_SIGNERS (limit exact) and no live rule already has the resulting fingerprint - in every
+   state reachable by calls and ledger advances, at any ledger *)
+Theorem C20_sa_add_signer_iff :
+  forall (c : sa_cfg) (sl : sa_state * N) (now id : N) (x : signer),
+  sa_reachable c sl ->
+  let s := fst sl in
+  is_ok (sa_step (sa_with_now c now) s (SaAddSigner id x)) = true <->
+  (exists r : rule,
+     sa_get_rule s id = Ok r /\
+     ~ In x (r_signers r) /\
+     (length (r_signers r) < sa_max_signers c)%nat /\
+     (forall (id2 : N) (r2 : rule),
+      sa_get_rule s id2 = Ok r2 -> same_fp (r_ctx r) (r_signers r ++ [x]) (r_policies r) r2 = false)).
+Proof. exact sa_add_signer_iff. Qed.
+Print Assumptions C20_sa_add_signer_iff.
+
+(* add_policy: accepted IFF the rule exists, the policy is new, its install succeeds, the policy list
+   is below MAX_POLICIES (limit exact) and no live rule already has the resulting fingerprint *)
+Theorem C20_sa_add_policy_iff :
+  forall (c : sa_cfg) (sl : sa_state * N) (now id p : N) (installs : bool),
+  sa_reachable c sl ->
+  let s := fst sl in
+  is_ok (sa_step (sa_with_now c now) s (SaAddPolicy id p installs)) = true <->
+  (exists r : rule,
+     sa_get_rule s id = Ok r /\
+     ~ In p (r_policies r) /\
+     installs = true /\
+     (length (r_policies r) < sa_max_policies c)%nat /\
+     (forall (id2 : N) (r2 : rule),
+      sa_get_rule s id2 = Ok r2 -> same_fp (r_ctx r) (r_signers r) (r_policies r ++ [p]) r2 = false)).
+Proof. exact sa_add_policy_iff. Qed.
+Print Assumptions C20_sa_add_policy_iff.
+
+(* persistence (model level): ledger gaps change nothing. For every model whose step does not read the
+   ledger (all registries but the smart account, whose theorems above are stated over histories WITH gaps),
+   the state after any history of calls and Advance steps is the state after its calls alone; the monitors
+   (C20_monitor_accepts_model) require every answer after an Advance to be that of the unchanged reference *)
+Theorem C20_ledger_gaps_change_nothing :
+  forall (St C O : Type) (step : St -> C -> res (St * O)) (dflt : O) (cs : list (tcall C)) (sl : St * N),
+  fst (run (lstep (fun _ : N => step) dflt) sl cs) = run step (fst sl) (calls_of cs).
+Proof. exact @ledger_gaps_change_nothing. Qed.
+Print Assumptions C20_ledger_gaps_change_nothing.
 
 (* ------------------------------------------------------------------------- *)
 (* Examples: the monitors are not vacuous - each rejects a hand-made trace that  *)
@@ -351,70 +398,96 @@ Open Scope N_scope.
 
 (* a duplicate bind is accepted *)
 Example C20_monitor_rejects_duplicate_bind :
-  monitor (TrBinder 100 10000 [] [(TbBind 1, Ok tt, []); (TbBind 1, Ok tt, [])]) = 2.
+  monitor (TrBinder 100 10000 [] [(Call (TbBind 1), Ok tt, []); (Call (TbBind 1), Ok tt, [])]) = 2.
 Proof. vm_compute. reflexivity. Qed.
 (* index-based access returns the same token at two indexes *)
 Example C20_monitor_rejects_double_enumeration :
-  monitor (TrBinder 100 10000 [] [(TbBindMany [1; 2], Ok tt,
+  monitor (TrBinder 100 10000 [] [(Call (TbBindMany [1; 2]), Ok tt,
      [(TqByIndex 0, TaAddr (Ok 1)); (TqByIndex 1, TaAddr (Ok 1))])]) = 1.
 Proof. vm_compute. reflexivity. Qed.
 (* the element swapped into the hole is lost after an unbind *)
 Example C20_monitor_rejects_lost_element :
-  monitor (TrBinder 100 10000 [] [(TbBindMany [1; 2; 3], Ok tt, [(TqLinked, TaList [1; 2; 3])]);
-                                   (TbUnbind 1, Ok tt, [(TqLinked, TaList [2])])]) = 2.
+  monitor (TrBinder 100 10000 [] [(Call (TbBindMany [1; 2; 3]), Ok tt, [(TqLinked, TaList [1; 2; 3])]);
+                                   (Call (TbUnbind 1), Ok tt, [(TqLinked, TaList [2])])]) = 2.
 Proof. vm_compute. reflexivity. Qed.
 (* refusal below the capacity limit *)
 Example C20_monitor_rejects_early_refusal :
-  monitor (TrBinder 100 3 [] [(TbBindMany [1; 2], Ok tt, []); (TbBind 3, Fail, [])]) = 2.
+  monitor (TrBinder 100 3 [] [(Call (TbBindMany [1; 2]), Ok tt, []); (Call (TbBind 3), Fail, [])]) = 2.
 Proof. vm_compute. reflexivity. Qed.
 (* acceptance past the capacity limit *)
 Example C20_monitor_rejects_over_capacity :
-  monitor (TrBinder 100 2 [] [(TbBindMany [1; 2], Ok tt, []); (TbBind 3, Ok tt, [])]) = 2.
+  monitor (TrBinder 100 2 [] [(Call (TbBindMany [1; 2]), Ok tt, []); (Call (TbBind 3), Ok tt, [])]) = 2.
 Proof. vm_compute. reflexivity. Qed.
 (* a removed document is still returned *)
 Example C20_monitor_rejects_stale_document :
-  monitor (TrDocs 50 5000 200 [] [(DmSet 1 (Build_doc 1 3 7 1000), Ok tt, []);
-                                  (DmRemove 1, Ok tt, [(DqGet 1, DaDoc (Ok (Build_doc 1 3 7 1000)))])]) = 2.
+  monitor (TrDocs 50 5000 200 [] [(Call (DmSet 1 (Build_doc 1 3 7 1000)), Ok tt, []);
+                                  (Call (DmRemove 1), Ok tt, [(DqGet 1, DaDoc (Ok (Build_doc 1 3 7 1000)))])]) = 2.
 Proof. vm_compute. reflexivity. Qed.
 (* the two directions of the topic / issuer relation disagree *)
 Example C20_monitor_rejects_one_way_relation :
-  monitor (TrCTI 15 50 [(CtAddTopic 1, Ok tt, []);
-                        (CtAddIssuer 0 [1], Ok tt, [(CqIssuerTopics 0, CaRList (Ok [1])); (CqTopicIssuers 1, CaRList (Ok []))])]) = 2.
+  monitor (TrCTI 15 50 [(Call (CtAddTopic 1), Ok tt, []);
+                        (Call (CtAddIssuer 0 [1]), Ok tt, [(CqIssuerTopics 0, CaRList (Ok [1])); (CqTopicIssuers 1, CaRList (Ok []))])]) = 2.
 Proof. vm_compute. reflexivity. Qed.
 (* the pre-fix behaviour of defect F5: with limit 2, the second pair of a key is refused *)
 Example C20_monitor_rejects_F5 :
-  monitor (TrKeys 50 2 [(CkAllow 1 0 101 1 (Ok true), Ok tt, []); (CkAllow 1 1 101 1 (Ok true), Fail, [])]) = 2.
+  monitor (TrKeys 50 2 [(Call (CkAllow 1 0 101 1 (Ok true)), Ok tt, []); (Call (CkAllow 1 1 101 1 (Ok true)), Fail, [])]) = 2.
 Proof. vm_compute. reflexivity. Qed.
 (* ... and it rejects the trace of the PRE-FIX MODEL itself with the real limits (call 20 of 20) *)
 Example C20_monitor_rejects_prefix_model :
-  monitor (TrKeys 50 20 (model_trace (ck_step_prefix f5_cfg) ck_answer ck_init
-             (map (fun k => (k, [])) (f5_history ++ [CkAllow 7 4 101 3 (Ok true)])))) = 20.
+  monitor (TrKeys 50 20 (model_trace (lstep (fun _ : N => ck_step_prefix f5_cfg) tt) (lans ck_answer) (ck_init, 0)
+             (map (fun k => (Call k, [])) (f5_history ++ [CkAllow 7 4 101 3 (Ok true)])))) = 20.
 Proof. vm_compute. reflexivity. Qed.
 (* a recovered account is registered again *)
 Example C20_monitor_rejects_reregistration :
-  monitor (TrIRS 15 10 100 [(IrAdd 0 9 0 [Build_cdata 1 None], Ok tt, []); (IrRecover 0 1, Ok tt, []);
-                            (IrAdd 0 9 0 [Build_cdata 1 None], Ok tt, [])]) = 3.
+  monitor (TrIRS 15 10 100 [(Call (IrAdd 0 9 0 [Build_cdata 1 None]), Ok tt, []); (Call (IrRecover 0 1), Ok tt, []);
+                            (Call (IrAdd 0 9 0 [Build_cdata 1 None]), Ok tt, [])]) = 3.
 Proof. vm_compute. reflexivity. Qed.
 (* a module registered twice for one hook *)
 Example C20_monitor_rejects_duplicate_module :
-  monitor (TrCM 20 [(CmAdd 0 1, Ok tt, []); (CmAdd 0 1, Ok tt, [])]) = 2.
+  monitor (TrCM 20 [(Call (CmAdd 0 1), Ok tt, []); (Call (CmAdd 0 1), Ok tt, [])]) = 2.
 Proof. vm_compute. reflexivity. Qed.
 (* the topic index lists a claim twice *)
 Example C20_monitor_rejects_double_index :
-  monitor (TrIC [(IcAdd (Build_claim 1 101 0 1 1 1) true, Ok (Some (0, 1)), [(JqByTopic 1, JaIds [(0, 1); (0, 1)])])]) = 1.
+  monitor (TrIC [(Call (IcAdd (Build_claim 1 101 0 1 1 1) true), Ok (Some (0, 1)), [(JqByTopic 1, JaIds [(0, 1); (0, 1)])])]) = 1.
 Proof. vm_compute. reflexivity. Qed.
 (* a rule id is reused after a removal *)
 Example C20_monitor_rejects_reused_id :
   monitor (TrSA 15 15 5 100
-    [(SaAddRule CDefault 0 None [Delegated 0] [], Ok (Some (Build_rule 0 CDefault 0 [Delegated 0] [] None)), []);
-     (SaRemoveRule 0, Ok None, []);
-     (SaAddRule CDefault 0 None [Delegated 1] [], Ok (Some (Build_rule 0 CDefault 0 [Delegated 1] [] None)), [])]) = 3.
+    [(Call (SaAddRule CDefault 0 None [Delegated 0] []), Ok (Some (Build_rule 0 CDefault 0 [Delegated 0] [] None)), []);
+     (Call (SaRemoveRule 0), Ok None, []);
+     (Call (SaAddRule CDefault 0 None [Delegated 1] []), Ok (Some (Build_rule 0 CDefault 0 [Delegated 1] [] None)), [])]) = 3.
 Proof. vm_compute. reflexivity. Qed.
 (* a rule with the same fingerprint (same signer SET, other order) is accepted twice *)
 Example C20_monitor_rejects_duplicate_fingerprint :
   monitor (TrSA 15 15 5 100
-    [(SaAddRule CDefault 0 None [Delegated 0; Delegated 1] [], Ok (Some (Build_rule 0 CDefault 0 [Delegated 0; Delegated 1] [] None)), []);
-     (SaAddRule CDefault 1 None [Delegated 1; Delegated 0] [], Ok (Some (Build_rule 1 CDefault 1 [Delegated 1; Delegated 0] [] None)), [])]) = 2.
+    [(Call (SaAddRule CDefault 0 None [Delegated 0; Delegated 1] []), Ok (Some (Build_rule 0 CDefault 0 [Delegated 0; Delegated 1] [] None)), []);
+     (Call (SaAddRule CDefault 1 None [Delegated 1; Delegated 0] []), Ok (Some (Build_rule 1 CDefault 1 [Delegated 1; Delegated 0] [] None)), [])]) = 2.
+Proof. vm_compute. reflexivity. Qed.
+
+(* persistence: state that lapses while nothing is called is a violation - a bound token gone after a
+   ledger gap, a recovery link gone, a rule gone (count unchanged), a getter that traps *)
+Example C20_monitor_rejects_lapsed_token :
+  monitor (TrBinder 100 10000 [] [(Call (TbBind 1), Ok tt, [(TqIsBound 1, TaBool true)]);
+                                   (Advance 600000, Ok tt, [(TqIsBound 1, TaBool false)])]) = 2.
+Proof. vm_compute. reflexivity. Qed.
+Example C20_monitor_rejects_lapsed_link :
+  monitor (TrIRS 15 10 100 [(Call (IrAdd 0 9 0 [Build_cdata 1 None]), Ok tt, []); (Call (IrRecover 0 1), Ok tt, [(IqRecovered 0, IaOpt (Some 1))]);
+                            (Advance 4000000, Ok tt, [(IqRecovered 0, IaOpt None)])]) = 3.
+Proof. vm_compute. reflexivity. Qed.
+Example C20_monitor_rejects_lapsed_rule :
+  monitor (TrSA 15 15 5 100
+    [(Call (SaAddRule CDefault 0 None [Delegated 0] []), Ok (Some (Build_rule 0 CDefault 0 [Delegated 0] [] None)), [(SqCount, SaNat 1)]);
+     (Advance 17281, Ok None, [(SqCount, SaNat 1); (SqRule 0, SaRule Fail)])]) = 2.
+Proof. vm_compute. reflexivity. Qed.
+Example C20_monitor_rejects_trapping_getter :
+  monitor (TrCM 20 [(Call (CmAdd 0 1), Ok tt, [(MqModules 0, MaList [1])]); (Advance 20, Ok tt, [(MqModules 0, MaTrap)])]) = 2.
+Proof. vm_compute. reflexivity. Qed.
+(* ... while a valid_until that passes during a gap is NOT a lapse: the ledger is part of the reference *)
+Example C20_monitor_tracks_ledger :
+  monitor (TrSA 15 15 5 100
+    [(Advance 50, Ok None, []);
+     (Call (SaAddRule CDefault 0 (Some 120) [Delegated 0] []), Fail, []);
+     (Call (SaAddRule CDefault 0 (Some 150) [Delegated 0] []), Ok (Some (Build_rule 0 CDefault 0 [Delegated 0] [] (Some 150))), [])]) = 0.
 Proof. vm_compute. reflexivity. Qed.
 
 (* non-vacuity: the hypotheses of the theorems are met on non-trivial reachable states, e.g. a
